@@ -43,6 +43,8 @@ def make_case(rng, nobs, spacing, labeling, kind, zero_sum=False, force_wrap=Fal
         x = np.full(nobs, int(rng.integers(-9000, 9000)))
     elif kind == "linear":
         a, b = int(rng.integers(-3000, 3000)), int(rng.integers(-4, 5))
+        maxb = (10000 - abs(a)) // max(int(pos[-1]), 1)          # the line stays inside +-10000 over the whole record (no clipping)
+        b = max(-maxb, min(maxb, b))
         x = a + b * pos
     else:
         x = np.round(3000 * np.sin(t / 40.0) + rng.normal(0, 400, nobs) + rng.integers(-4000, 4000))
